@@ -92,8 +92,12 @@ def run(pid: str, tier: str) -> dict:
                 viol.append({"signature": f"{pid}|function does not reflect the most recent step|{json.dumps(t['h'][-2:])}",
                              "summary": f"compiled function differs from the specification's step with the parameters of the most recent step after {json.dumps(t['h'])}: {json.dumps(bad[:3])}",
                              "payload": {"kind": "life", "transition": t, "finding": bad[:10]}})
-    cov = {"states": max(1, info["states"]), "transitions": max(1, info["transitions"]),
-           "traces_validated_against_impl": len(trans) + nval,
+    import lifetrace
+    b = lifetrace.run(pid, tier) if pid in ("C19", "C13") else {"violations": [], "states": 0, "traces": 0, "calls": 0, "numeric": 0, "samples": []}
+    viol += b["violations"]
+    cov = {"states": max(1, info["states"] + b["states"]), "transitions": max(1, info["transitions"]),
+           "traces_validated_against_impl": len(trans) + nval + b["traces"] + b["numeric"],
+           "recorded_histories": b["traces"], "recorded_calls": b["calls"], "recorded_functions_validated_numerically": b["numeric"],
            "samples": [{"history": t["h"], "expected_result": t["res"]} for t in (trans[:1] + trans[len(trans) // 2:len(trans) // 2 + 1] + trans[-2:])],
            "exhaustive": True, "profile": plan["profile"], "depth": plan[tier], "transitions_replayed": len(trans),
            "compiled_functions_validated_numerically": nval,
@@ -102,4 +106,5 @@ def run(pid: str, tier: str) -> dict:
     return {"violations": viol, "coverage": cov, "level": "model_checking", "drift": sorted(set(drift))[:10],
             "assumptions": ["TLC; the replay harness liferun.py (spy engine, type/identity observations)",
                             "fixed small network (chain with mainstream origin, ramp, speed-limited link, congested destination, two late replacements)"],
-            "headline": f"{len(trans)} transitions replayed, {nval} compiled functions validated numerically, {len(viol)} findings"}
+            "headline": f"{len(trans)} transitions replayed, {nval} compiled functions validated numerically, "
+                        f"{b['traces']} recorded histories ({b['calls']} calls, {b['numeric']} functions) validated, {len(viol)} findings"}
